@@ -48,6 +48,9 @@ var solverTimeoutMs = 10000
 
 func NewSolver() *Solver {
 	s := &Solver{gen: 1, bin: solverBin}
+	if f := os.Getenv("GOSYM_SMTLOG"); f != "" {
+		s.log, _ = os.Create(f)
+	}
 	s.start()
 	return s
 }
@@ -58,7 +61,7 @@ func (s *Solver) start() {
 	case strings.Contains(s.bin, "cvc5"):
 		args = []string{"--incremental", "--lang=smt2", "--produce-models", fmt.Sprintf("--tlimit-per=%d", solverTimeoutMs)}
 	default:
-		args = []string{"-in", fmt.Sprintf("-t:%d", solverTimeoutMs)}
+		args = []string{"-in"}
 	}
 	s.cmd = exec.Command(s.bin, args...)
 	var err error
@@ -78,7 +81,7 @@ func (s *Solver) start() {
 	if strings.Contains(s.bin, "cvc5") {
 		s.send("(set-logic QF_BV)\n")
 	} else {
-		s.send("(set-option :produce-models true)\n")
+		s.send("(set-option :produce-models true)\n(set-option :rlimit 50000000)\n")
 	}
 }
 
